@@ -1,11 +1,14 @@
 PROP = {
-    "kani_groups": ["hk_emit_min"],
+    "kani_groups": ["hk_emit_min", "hk_emit_std"],
     "smt": [],
     "technique": "bounded model checking (Kani/CBMC) of MinLevelFilter against the documented lenient level grammar",
-    "functions": ["emit::level::{MinLevelFilter::matches, treat_unleveled_as, Level::from_str, parse, Level as FromValue}"],
+    "functions": ["emit::level::{MinLevelPathMap::{new, default_min_level, min_level, matches}, PathNode}, emit_core::path::{Path::segments, Segments}",
+                  "emit::level::{MinLevelFilter::matches, treat_unleveled_as, Level::from_str, parse, Level as FromValue}"],
     "bounds": "level property absent / typed (4 levels) / text of <= 4 bytes over {i,I,n,f,o,d,b,g,e,E,r,w,W,a,1,blank,(,0x01} / non-level value; "
-              "minimum and default any level; numeric MinLevelFilter<u8> over all u8",
-    "outside": "level texts longer than 4 bytes (6 in the C15 parser harness); MinLevelPathMap needs alloc: see the alloc group if registered",
+              "minimum and default any level; numeric MinLevelFilter<u8> over all u8; "
+              "MinLevelPathMap: <= 2 (thorough 3) registrations in symbolic order from the pool {a, aa, a::b, a::bb, a::b::c, b} with any level, optional default, "
+              "event module from the pool, typed event level",
+    "outside": "level texts longer than 4 bytes (6 in the C15 parser harness); path maps with more than 3 registrations or modules outside the pool",
     "stubs": [],
     "assumptions": ["text is valid UTF-8 (ASCII alphabet)"],
     "timeout": {"quick": 700, "thorough": 3600},
